@@ -81,11 +81,42 @@ def run(ctx):
             raise ToolError("PathSelect produced no cases for %s" % name)
         execute(ctx, cases)
         total += len(cases)
+        if name == "ms" and not ctx.violations:
+            selftest(ctx, cases)
     ctx.cov["rule"] = ("every candidate list up to MaxLen over the address set x every current selection (each case = one TLC "
                        "initial state, exhaustive within the constants); non-trivial = at least one candidate has stats")
     ctx.cov["exhaustive"] = True
     ctx.assume("PathStats other than rtt do not influence BiasedRttPathSelector (only stats.rtt is read)")
     ctx.assume("FourTuple local address is None in all synthetic candidates (equality of the current path is by remote address)")
+
+
+def selftest(ctx, cases):
+    """Binding self-test: with the two rtts of a case swapped on the way to the harness, the real selector must follow the
+    swapped input (the model's answer for the swapped case), not the original expectation."""
+    key = lambda cs, cur: json.dumps([[x["addr"], x["rtt"]] for x in cs] + [cur])
+    table = {key(c["cs"], c["cur"]): c for c in cases}
+    picked = []
+    for c in cases:
+        cs = c["cs"]
+        if len(cs) == 2 and cs[0]["addr"] != cs[1]["addr"] and c["nostats"] not in (cs[0]["rtt"], cs[1]["rtt"]) and cs[0]["rtt"] != cs[1]["rtt"]:
+            sw = [{"addr": cs[0]["addr"], "rtt": cs[1]["rtt"]}, {"addr": cs[1]["addr"], "rtt": cs[0]["rtt"]}]
+            other = table.get(key(sw, c["cur"]))
+            if other and not (set(other["expect"]) & set(c["expect"])):
+                picked.append((c, sw, other))
+        if len(picked) >= ctx.pick(20, 200):
+            break
+    if not picked:
+        raise ToolError("binding self-test: no case whose answer changes when the rtts are swapped")
+    inp = ctx.write_ndjson("c24-selftest.in", [{"case": i + 1, "cs": sw, "cur": c["cur"], "unit_ns": c["unit_ns"], "nostats": c["nostats"]}
+                                               for i, (c, sw, other) in enumerate(picked)])
+    outp = ctx.path("c24-selftest.out")
+    ctx.run_bin("vh_remote", ["c24", "--in", inp, "--out", outp])
+    obs = ctx.read_ndjson(outp)
+    for (c, sw, other), o in zip(picked, obs):
+        if o["out"] in c["expect"] or o["out"] not in other["expect"]:
+            raise ToolError("binding self-test: swapped rtts %s (current %s) gave %s; original expectation %s, swapped %s"
+                            % (sw, c["cur"], o["out"], c["expect"], other["expect"]))
+    ctx.cov["binding_selftests"] = {"cases_with_swapped_rtts": len(picked), "rejected_against_original_expectation": len(picked)}
 
 
 def execute(ctx, cases):
